@@ -39,20 +39,8 @@ BRIDGES = [("ColaVerif.Properties.C06.GMRES", "ColaVerif.Properties.C13"), ("Col
 # Genuine defects of cola found by this check, not yet recorded in /verif/known_findings.json
 # (treated as known so that the check exits 0 on the unchanged tree; see the builder report).
 PROVISIONAL_KNOWN = {}   # decided: recorded in /verif/known_findings.json
-_FORMERLY_PROVISIONAL = {
-    "scalar-times-annotated":
-        "the recorded C05 defect inside the result of inv: inv(Product(M, c*I)) = Product((1/c)*I, inv(M)) inherits the annotations of "
-        "its single non-scalar member whatever c is; a Kronecker / BlockDiag of such products reports SelfAdjoint and its default left "
-        "product takes the conjugation shortcut: X @ inv(Kronecker(Product(I, 1j*I), I)) has the wrong sign",
-    "gmres-zero-rhs-column":
-        "inv(A, GMRES) @ b with a zero column in b (or b = 0): init_arnoldi divides the start vector by its norm 0 and the "
-        "whole column of the solution is NaN",
-    "gmres-krylov-breakdown":
-        "floating point only (C13/C15 breakdownNotMasked): inv(A, GMRES) @ b where the Krylov space of a column of b is exhausted "
-        "before step n (an eigenvector right-hand side, or e.g. inv(A, GMRES).to_dense() = B @ I for a matrix with a small invariant "
-        "subspace): the exact breakdown is not detected, the column keeps being stepped with rounding noise and the solve sometimes "
-        "raises LinAlgError('Singular matrix') or returns garbage",
-}
+# (the three recorded clauses of this check -- scalar-times-annotated, gmres-zero-rhs-column, gmres-krylov-breakdown -- are
+# read from known_findings.json through common.known_clauses)
 
 # clauses whose effect is not deterministic (floating point only): the product may succeed or fail
 EITHER = {"gmres-krylov-breakdown"}
@@ -1131,6 +1119,10 @@ def run(ctx):
                                   "hypothesis; the driver re-checks the RESULT by multiplication: inv_ok); luExact / cholExact are a second implementation "
                                   "compared with the first on every LAPACK node (lapack_agree)"]}
     common.write_evidence(ctx, gate, cov, assumptions=[
+        "NO THEOREM behind the clause attribution: the driver's predicates iterSees / kronSees / bdiagSees / denseSees (which operand each iterative node receives), "
+        "zeroColumn / badZeroCol, gradeOf and badBreakdown (lean/DriverC06.lean) are executable diagnostics (partial defs) used ONLY to attribute a disagreement to the "
+        "recorded clauses gmres-zero-rhs-column / gmres-krylov-breakdown; no theorem of C06 / C13 / C15 mentions them and nothing is proved about them; a clause is "
+        "applied only to the failure class it predicts (NaN / LinAlgError of the solve)",
         "CONTRACT PARAMETERS of the theorems (Inv.Ext: recip, chol, lu, solve), each an assumed EXACT behaviour of an external routine at the nodes that "
         "fall to an algorithm: `LUContract` (xnp.lu / LAPACK getrf: P L U = A.to_dense(), p a permutation, triangular factors, invertible diagonals), "
         "`CholContract` (xnp.cholesky / potrf: L L^H = A.to_dense(), L lower triangular, invertible diagonal), `SolveContract` (CG / GMRES object: "
